@@ -642,7 +642,9 @@ def run(ctx, replay=None):
         big_cases.append({"cap": 4000000, "events": {"seed": ctx.rng.randrange(10 ** 9), "nr": 40, "nc": 40, "n": 600000}})
         big_cases.append({"cap": 3000000, "events": {"seed": ctx.rng.randrange(10 ** 9), "nr": 1000, "nc": 1000, "n": 700000}})
 
-    with ThreadPoolExecutor(max_workers=4) as ex:
+    norm_cases = gen_norm_cases(ctx)
+    with ThreadPoolExecutor(max_workers=5) as ex:
+        f_norm = ex.submit(timed, "norm_child", C.run_impl, "c04_norm", norm_cases, {"NUMBA_NUM_THREADS": "4"}, 1500)
         f_model = ex.submit(timed, "model_eval", eval_model, state_cases)
         f_state = ex.submit(timed, "state_children", run_children, "state",
                             [("L%d" % L, {"limit": L}, {}, state_cases[L]) for L in LIMITS], ctx, "state")
@@ -652,6 +654,8 @@ def run(ctx, replay=None):
         state_res, state_deaths = f_state.result()
         api_out = f_api.result()
         big_out = f_big.result() if f_big else None
+        norm_out = f_norm.result()
+    check_norm(ctx, norm_cases, *norm_out)
     TIMES["gate"] = ctx.gate.get("wall_s")
     timed("check_state", check_state, ctx, state_cases, model, state_res, state_deaths)
     if big_out:
@@ -665,6 +669,40 @@ def run(ctx, replay=None):
 
 
 TIMES = {}
+
+
+def gen_norm_cases(ctx):
+    """transform of thousands of sequences WITH post-processing (epsilon > 0 and / or n_iter > 0): see impl/c04_norm.py"""
+    rng = ctx.rng
+    out = []
+    for k in range(2 if ctx.quick else 8):
+        out.append({"seed": rng.randrange(10 ** 9), "vocab": rng.choice([4, 5, 6]),
+                    "n_docs": rng.choice([4097, 5000, 9000]) if k % 2 == 0 else rng.choice([8193, 9000, 12500]),
+                    "radius": rng.choice([1, 2]), "orientation": rng.choice(["after", "before", "directional"]),
+                    "kernel": rng.choice(["flat", "geometric"]), "normalize_windows": rng.random() < 0.5,
+                    "n_iter": [1, 0, 2][k % 3], "epsilon": [0.05, 0.2, 0.0][k % 3], "n_threads": rng.choice([1, 3, 7]),
+                    "cls": "TokenCooccurrenceVectorizer" if k % 2 == 0 else "TimedTokenCooccurrenceVectorizer"})
+    return out
+
+
+def check_norm(ctx, cases, res, info):
+    res = res or []
+    if len(res) != len(cases):
+        ctx.report("implementation child died (rc=%s) in the large-transform stream: %s" % (info["rc"], info["tail"][-300:]),
+                   {"stage": "impl-crash", "case": cases[len(res)] if len(res) < len(cases) else None}, found_input=True)
+    n_ok = 0
+    for c, r in zip(cases, res):
+        ctx.count_case(dict(c, stage="norm"), nontrivial=bool(r.get("nnz")), kind="norm:%s:n_iter=%d:eps=%s" % (c["cls"][:5], c["n_iter"], c["epsilon"]))
+        if "err" in r:
+            ctx.report("transform of %d sequences raised %s: %s" % (c["n_docs"], r["err"], r["msg"]), {"stage": "oracle", "case": dict(c, stage="norm")})
+        elif r["shape"] != r["ref_shape"] or r["worst_rel"] > 2e-5:
+            ctx.report("transform of %d sequences with n_iter=%d, epsilon=%s differs from the one-pass matrix of the same corpus and "
+                       "vocabulary: %s (relative %.3g); max column sum %.6g" % (c["n_docs"], c["n_iter"], c["epsilon"], r["where"],
+                                                                               r["worst_rel"], r["max_colsum"]),
+                       {"stage": "oracle", "case": dict(c, stage="norm"), "result": r})
+        else:
+            n_ok += 1
+    ctx.coverage["large_transform_with_postprocessing"] = {"cases": len(cases), "ok": n_ok}
 
 
 def timed(name, f, *a):
